@@ -276,6 +276,10 @@ func (c *client) SendBatch(ctx context.Context, batch []hrpc.Call) (
 	var unretryableErrorSeen bool
 	var retries []hrpc.Call
 	backoff := backoffStart
+	// serverErrorCount counts the rounds in which a ServerError was
+	// retried. As in SendRPC, the first retries are immediate to fail
+	// over fast, but if ServerErrors keep coming we have to back off.
+	serverErrorCount := 0
 
 	for {
 		// findClients reports errors by position in the batch it's
@@ -330,6 +334,15 @@ func (c *client) SendBatch(ctx context.Context, batch []hrpc.Call) (
 		// retries is empty), or the context is done.
 		if len(retries) == 0 || ctx.Err() != nil {
 			break
+		}
+		for _, rpc := range retries {
+			if _, ok := res[rpcToRes[rpc]].Error.(region.ServerError); ok {
+				if serverErrorCount > 1 {
+					needBackoff = true
+				}
+				serverErrorCount++
+				break
+			}
 		}
 		if needBackoff {
 			sp.AddEvent("retrySleep")
